@@ -114,6 +114,13 @@ int Kernel::k_pipe(int out[2], Owner by) {
     return 0;
 }
 
+int Kernel::k_open_plain(Owner by) {
+    auto f = std::make_shared<File>();
+    f->id = next_file_id++;
+    f->kind = F_STD;
+    return alloc_fd(f, by);
+}
+
 int Kernel::k_close(int fd, Owner by) {
     File *f = get(fd);
     CloseRec rec{R->gseq, fd, by, f != nullptr, f ? fds[fd].owner : OWN_USER, f ? f->kind : F_STD, f ? f->id : 0};
